@@ -683,7 +683,7 @@ func (s *State) applyExtension(fn object.Extension, args []object.Object) object
 	}
 	if fn.MaxArgs == -1 {
 		// Only do this for true variadic functions (maxargs == -1)
-		if l > 0 && args[l-1].Type() == object.ARRAY {
+		if l > 0 && object.Value(args[l-1]).Type() == object.ARRAY { // Value: may be a reference to an outer array.
 			args = append(args[:l-1], object.Elements(args[l-1])...)
 			l = len(args)
 			log.Debugf("expending last arg now %d args %v", l, args)
@@ -806,7 +806,7 @@ func (s *State) extendFunctionEnv(
 		n := len(params) - 1
 		params = params[:n]
 		// Expending the last argument expecting it to be "..", but any other array will do too.
-		if len(args) > 0 && args[len(args)-1].Type() == object.ARRAY {
+		if len(args) > 0 && object.Value(args[len(args)-1]).Type() == object.ARRAY { // Value: may be a reference to an outer array.
 			args = append(args[:len(args)-1], object.Elements(args[len(args)-1])...)
 		}
 		if len(args) >= n {
@@ -1045,20 +1045,20 @@ func (s *State) evalForSpecialForms(fe *ast.ForExpression) (object.Object, bool)
 	}
 	name := ie.Left.Value().Literal()
 	if ie.Right.Value().Type() == token.COLON {
-		start := s.evalInternal(ie.Right.(*ast.InfixExpression).Left)
+		start := object.Value(s.evalInternal(ie.Right.(*ast.InfixExpression).Left)) // deref: may be an outer variable.
 		startInt, ok := Int64Value(start)
 		if !ok {
 			return s.NewError("for var = n:m n not an integer: " + start.Inspect()), true
 		}
-		end := s.evalInternal(ie.Right.(*ast.InfixExpression).Right)
+		end := object.Value(s.evalInternal(ie.Right.(*ast.InfixExpression).Right))
 		endInt, ok := Int64Value(end)
 		if !ok {
 			return s.NewError("for var = n:m m not an integer: " + end.Inspect()), true
 		}
 		return s.evalForInteger(fe, &startInt, endInt, name), true
 	}
-	// Evaluate:
-	v := s.evalInternal(ie.Right)
+	// Evaluate (and deref: for i = n where n is an outer variable):
+	v := object.Value(s.evalInternal(ie.Right))
 	switch v.Type() {
 	case object.REGISTER:
 		return s.evalForInteger(fe, nil, v.(*object.Register).Int64(), name), true
